@@ -169,6 +169,21 @@ example : (after true cfg0 [.execAsync call0, .tStart, .tReturn ret0, .cancel, .
   decide
 example : (after true cfg0 [.execSync call0, .tStart, .tRaise 0 1, .getResults]).msg = .task 0 1 := by decide
 
+/-- Cancel requested, then the task RAISES (it never returns): the truthful final state is ERROR with
+`<type>: <message>` of the exception — "failed with the exception's type and message if the task
+raised"; CANCELED is for a task that *returned* after the request.  Whatever the history `w1` before
+(any number of cancels, from the caller thread or from inside the callback) and `w2` after. -/
+theorem cancel_then_raise_is_error (fixed : Bool) (cfg : Cfg) (w1 w2 : List Ev) (c m : Nat)
+    (h : (after fixed cfg w1).phase = .active) (_hc : (after fixed cfg w1).cancelReq = true) :
+    (after fixed cfg (w1 ++ .tRaise c m :: w2)).status = .error ∧
+    (after fixed cfg (w1 ++ .tRaise c m :: w2)).msg = .task c m :=
+  ((final_truthful fixed cfg w1 w2 h).2 c m).2
+
+example : (after true cfg0 [.cancel, .execSync call0, .tStart]).phase = .active ∧
+    (after true cfg0 [.cancel, .execSync call0, .tStart]).cancelReq = true := by decide
+example : (outs true cfg0 [.execAsync call0, .tStart, .tProgress 3, .cancel, .tRaise 0 1, .statusQuery, .cancel,
+    .statusQuery]).drop 5 = [.status .error (.task 0 1) 3, .done, .status .error (.task 0 1) 3] := by decide
+
 /-! ## results: refused while running, the same converted value ever after -/
 
 /-- While the task has not ended `get_results()` is refused with "still running" (or cannot be issued)
@@ -460,5 +475,37 @@ example : (handleParams [1] [] [] { args := [some 5, some 6], kwargs := [], cbKw
 example : (outs true cfg0 [.execAsync { args := [some 5, some 6, some 7], kwargs := [], cbKw := false }, .statusQuery,
     .execSync call0, .tStart, .tReturn ret0]) =
     [.exc .index, .status .waiting .none 0, .accepted, .started [(1, some 5)], .finished (some (.val ret0))] := by decide
+
+/-! ## several jobs in one process -/
+
+/-- A job of a process that holds any other jobs (in any state) — whatever is done to those jobs and
+however many further jobs are created, interleaved in any way with its own events — ends in the state,
+and gives the answers, of the single-job machine run over its own events alone.  Every theorem of this
+file therefore holds for every job of every multi-job process history. -/
+theorem job_independent_of_other_jobs (fixed : Bool) (P : Proc) (W : List PEv) (i : Nat) (cfg : Cfg)
+    (s : State) (h : P[i]? = some (cfg, s)) :
+    (exec (pstep fixed) P W)[i]? = some (cfg, exec (step fixed cfg) s (proj i W)) ∧
+    answersTo i (run (pstep fixed) P W).2 = (run (step fixed cfg) s (proj i W)).2 :=
+  proc_run_proj fixed W P i cfg s h
+
+/-- In particular a job created in ANY process (after any jobs with any past) is a fresh job: its
+state and its answers after any process history are `after`/`outs` of its own events — arguments
+routed for, results held by, cancels requested on and statuses of other jobs never reach it. -/
+theorem fresh_job_unaffected_by_process_history (fixed : Bool) (P : Proc) (cfg : Cfg) (W : List PEv) :
+    (exec (pstep fixed) P (.create cfg :: W))[P.length]? = some (cfg, after fixed cfg (proj P.length W)) ∧
+    answersTo P.length (run (pstep fixed) P (.create cfg :: W)).2 = outs fixed cfg (proj P.length W) := by
+  have h : (P ++ [(cfg, init cfg)])[P.length]? = some (cfg, init cfg) := by simp
+  obtain ⟨h1, h2⟩ := proc_run_proj fixed W _ _ cfg (init cfg) h
+  refine ⟨?_, ?_⟩
+  · rw [exec_cons]; exact h1
+  · rw [run_cons]; exact h2
+
+/-- job 0 routes `k1 = 5` and ends; job 1 (same declared name, called without argument, in flight
+while job 0 is executed) receives nothing of it and is not cancelled by the cancel on job 0 -/
+example : answersTo 1 (run (pstep true) [] [.create cfg0, .create cfg0,
+      .on 1 (.execAsync { args := [], kwargs := [], cbKw := false }), .on 1 .tStart,
+      .on 0 .cancel, .on 0 (.execSync call0), .on 0 .tStart, .on 0 (.tReturn ret0),
+      .on 1 (.tProgress 2), .on 1 (.tReturn ret0), .on 1 .statusQuery]).2 =
+    [.accepted, .started [], .progressed (some 1) 2 false, .finished none, .status .success .none 8] := by decide
 
 end PM.C18
